@@ -78,6 +78,7 @@ structure Flags where
   readyGuarded : Bool      -- `dependencychanged` moves only a WAITING job to READY
   resubmitRegisters : Bool -- re-submission after failure increments the counter and re-registers
   abortRechecks : Bool     -- after an aborted start, satisfied dependencies make the job READY again
+  abortReleases : Bool := true  -- an aborted start gives back at once the locks it had already taken (no hold across a suspension)
   deriving Repr, DecidableEq
 
 def upd {α : Type} (f : Nat → α) (j : Nat) (v : α) (i : Nat) : α := if i = j then v else f i
@@ -206,6 +207,7 @@ def St.resume (fl : Flags) (s : St) (j : Nat) : St :=
     let (s, failedAt) := s.acquireAll j jb.deps.length 0
     (match failedAt with
      | some d =>
+       let s := if fl.abortReleases then s.releaseAll j (s.jobs j).held else s
        let s := s.check fl j d
        s.put j { (s.jobs j) with pc := .lockExitAbort } [] [(.lockExit, j)]
      | none =>
